@@ -78,6 +78,12 @@ Proof.
   unfold acc_wrap at 2. rewrite wrap_u64_small by lia. rewrite IH by lia. lia.
 Qed.
 
+(* Python-integer accumulation (the wide path) is exact *)
+Lemma fold_add_zsum l acc : fold_left Z.add l acc = acc + zsum l.
+Proof. revert acc. induction l as [|c l IH]; intros acc; cbn [fold_left zsum fold_right]; [lia|]. fold (zsum l). rewrite IH. lia. Qed.
+Lemma sum_py_zsum l : sum_py l = zsum l.
+Proof. unfold sum_py. rewrite fold_add_zsum. lia. Qed.
+
 (* sum over all elements or along an axis: the result holds the exact sum, no flag, for ANY
    number of elements, as long as the grown word stays within 62 bits *)
 Theorem fxp_sum_exact f total l r o : 1 <= nw f -> 1 <= total -> Z.of_nat (length l) <= total ->
@@ -153,7 +159,9 @@ Proof.
       rewrite pow2_split by lia. rewrite Z.abs_mul. nia.
     - rewrite Hlp. fold n. assert (P62: 2^(clog2 n + (nw fx + nw fy)) <= 2^62) by (apply pow2_le; lia). rewrite pow2_split in P62 by lia.
       assert (2^62 < 2^63) by (apply pow2_lt; lia). assert (0 < 2^(nw fx + nw fy)) by (apply pow2_pos; lia). nia. }
-  unfold fxp_dot. fold n. fold prods. rewrite Hsum.
+  unfold fxp_dot. fold n. fold prods. cbv zeta. rewrite Hsum, sum_py_zsum.
+  match goal with |- context [if ?b then zsum prods else zsum prods] =>
+    replace (if b then zsum prods else zsum prods) with (zsum prods) by (destruct b; reflexivity) end.
   destruct (reduce_store_exact (dot_fmt fx fy n) r o [zsum prods]) as (w & Hs & Hcodes & Ho & Hu).
   - unfold dot_fmt. cbn [nw]. lia.
   - constructor; [exact Hin|constructor].
@@ -163,6 +171,9 @@ Qed.
 (* ---------- cumsum: every prefix sum, exact ---------- *)
 Fixpoint prefix_sums (acc : Z) (l : list Z) : list Z :=
   match l with [] => [] | c :: t => (acc + c) :: prefix_sums (acc + c) t end.
+
+Lemma scan_py_prefix l acc : scan_py Z.add acc l = prefix_sums acc l.
+Proof. revert acc. induction l as [|c l IH]; intros acc; cbn [scan_py prefix_sums]; [reflexivity|]. rewrite IH. reflexivity. Qed.
 
 Lemma scan_add_exact (signed : bool) l acc B : 0 <= B -> Forall (fun c => Z.abs c <= B) l ->
   (signed = false -> 0 <= acc /\ Forall (fun c => 0 <= c) l) ->
@@ -206,7 +217,9 @@ Proof.
       assert (E: 2^(nw f) = 2 * 2^(nw f - 1)) by (apply pow2_double; lia). assert (0 < 2^(nw f - 1)) by (apply pow2_pos; lia).
       destruct (sg f); [specialize (Sa eq_refl)|specialize (Ua eq_refl)]; lia.
     - intros Hs. split; [lia|]. eapply Forall_impl; [|exact Hr]. intros c Hcr. unfold in_range, cmin in Hcr. rewrite Hs in Hcr. lia. }
-  unfold fxp_cumsum. rewrite Hscan.
+  unfold fxp_cumsum. rewrite Hscan, scan_py_prefix.
+  match goal with |- context [if ?b then prefix_sums 0 l else prefix_sums 0 l] =>
+    replace (if b then prefix_sums 0 l else prefix_sums 0 l) with (prefix_sums 0 l) by (destruct b; reflexivity) end.
   destruct (reduce_store_exact (sum_fmt f total) r o (prefix_sums 0 l)) as (w & Hs & Hcodes & Ho & Hu).
   - cbn [sum_fmt nw]. lia.
   - apply (prefix_sums_in_range f total l 0 [] Hw Ht (Forall_nil _) eq_refl Hr). cbn [length]. lia.
@@ -215,6 +228,11 @@ Qed.
 
 (* ---------- prod: the product of all factors, exact, in a word count times as wide ---------- *)
 Definition zprod (l : list Z) : Z := fold_right Z.mul 1 l.
+
+Lemma fold_mul_zprod l acc : fold_left Z.mul l acc = acc * zprod l.
+Proof. revert acc. induction l as [|c l IH]; intros acc; cbn [fold_left zprod fold_right]; [lia|]. fold (zprod l). rewrite IH. ring. Qed.
+Lemma prod_py_zprod l : prod_py l = zprod l.
+Proof. unfold prod_py. rewrite fold_mul_zprod. lia. Qed.
 
 Lemma zprod_bound l B : 1 <= B -> Forall (fun c => Z.abs c <= B) l -> Z.abs (zprod l) <= B^(Z.of_nat (length l)).
 Proof.
@@ -286,9 +304,166 @@ Proof.
       destruct (sg f); [specialize (Sa eq_refl)|specialize (Ua eq_refl)]; lia.
     - intros Hs. split; [lia|]. eapply Forall_impl; [|exact Hr]. intros c Hc. unfold in_range, cmin in Hc. rewrite Hs in Hc. lia.
     - fold n. rewrite pow2_pow by lia. change (Z.abs 1) with 1. rewrite Z.mul_1_l. apply pow2_le. nia. }
-  unfold fxp_prod. rewrite Hprod.
+  unfold fxp_prod. rewrite Hprod, prod_py_zprod.
+  match goal with |- context [if ?b then zprod l else zprod l] =>
+    replace (if b then zprod l else zprod l) with (zprod l) by (destruct b; reflexivity) end.
   destruct (reduce_store_exact (prod_fmt f n) r o [zprod l]) as (w & Hs & Hcodes & Ho & Hu).
   - unfold prod_fmt. cbn [nw]. nia.
+  - constructor; [exact Hin|constructor].
+  - rewrite Hs. cbn [bind]. exists w. auto.
+Qed.
+
+(* ================= any word length (fix aaa3394: Python-integer accumulation from 64 bits on) ================= *)
+Lemma reduce_store_exact_any fz r o zs : 1 <= nw fz -> Forall (in_range fz) zs ->
+  exists w, reduce_store fz r o zs = Ok w /\ w_codes w = zs /\ w_ovf w = false /\ w_unf w = false.
+Proof.
+  intros Hw Hin. unfold reduce_store.
+  assert (Hfin: forall w, int_wres fz o zs w -> w_codes w = zs /\ w_ovf w = false /\ w_unf w = false).
+  { intros w (Hc & Ho & Hu). rewrite Hc, Ho, Hu. repeat split.
+    - apply map_fix. intros z Hz. rewrite Forall_forall in Hin. apply overflow_id; [lia|]. apply Hin. exact Hz.
+    - apply existsb_false. eapply Forall_impl; [|exact Hin]. intros z Hz. unfold in_range in Hz. lia.
+    - apply existsb_false. eapply Forall_impl; [|exact Hin]. intros z Hz. unfold in_range in Hz. lia. }
+  destruct (64 <=? nw fz) eqn:E.
+  - destruct (set_val_raw_obj fz r o zs Hw) as (w & Hs & Hi). exists w. split; [exact Hs|apply Hfin; exact Hi].
+  - assert (Hzb: Forall (fun z => Z.abs z < 2^63) zs).
+    { eapply Forall_impl; [|exact Hin]. intros z Hz. unfold in_range, cmin, cmax in Hz.
+      assert (2^(nw fz - 1) <= 2^62) by (apply pow2_le; lia). assert (2^(nw fz) <= 2^63) by (apply pow2_le; lia).
+      assert (2^62 < 2^63) by (apply pow2_lt; lia). assert (0 < 2^(nw fz - 1)) by (apply pow2_pos; lia).
+      destruct (sg fz); lia. }
+    destruct (set_val_raw_i64 fz r o zs Hw Hzb) as (w & Hs & Hi). exists w. split; [exact Hs|apply Hfin; exact Hi].
+Qed.
+
+(* the int64 / uint64 accumulation of in-range codes is exact as long as the grown word stays below 64 bits *)
+Lemma sum_narrow_exact f total l : 1 <= nw f -> 1 <= total -> Z.of_nat (length l) <= total ->
+  clog2 total + nw f <= 63 -> Forall (in_range f) l -> sum_i64 (sg f) l = zsum l.
+Proof.
+  intros Hw Ht Hlen H63 Hr. pose proof (clog2_ge total Ht) as Hc. pose proof (clog2_nonneg total) as Hc0.
+  assert (P63: 2^(clog2 total + nw f) <= 2^63) by (apply pow2_le; lia). rewrite pow2_split in P63 by lia.
+  assert (2^63 < 2^64) by (apply pow2_lt; lia).
+  assert (E: 2^(nw f) = 2 * 2^(nw f - 1)) by (apply pow2_double; lia). assert (0 < 2^(nw f - 1)) by (apply pow2_pos; lia).
+  assert (0 < 2^(clog2 total)) by (apply pow2_pos; lia).
+  destruct (sg f) eqn:Es.
+  - apply (sum_i64_exact l (2^(nw f - 1))); [lia| |nia].
+    eapply Forall_impl; [|exact Hr]. intros c Hcr. unfold in_range, cmin, cmax in Hcr. rewrite Es in Hcr. lia.
+  - unfold sum_i64. rewrite (sum_u64_exact_aux l 0 (2^(nw f))); [lia|lia| |lia|nia].
+    eapply Forall_impl; [|exact Hr]. intros c Hcr. unfold in_range, cmin, cmax in Hcr. rewrite Es in Hcr. lia.
+Qed.
+
+Theorem fxp_sum_exact_any f total l r o : 1 <= nw f -> 1 <= total -> Z.of_nat (length l) <= total -> Forall (in_range f) l ->
+  exists w, fxp_sum f total l r o = Ok (sum_fmt f total, w) /\ w_codes w = [zsum l] /\ w_ovf w = false /\ w_unf w = false.
+Proof.
+  intros Hw Ht Hlen Hr. pose proof (sum_in_range f total l Hw Hlen Ht Hr) as Hin. pose proof (clog2_nonneg total) as Hc0.
+  unfold fxp_sum. cbv zeta.
+  assert (Hsel: (if 64 <=? nw (sum_fmt f total) then sum_py l else sum_i64 (sg f) l) = zsum l).
+  { cbn [sum_fmt nw]. destruct (64 <=? clog2 total + nw f) eqn:E; [apply sum_py_zsum|]. apply (sum_narrow_exact f total); try assumption. lia. }
+  rewrite Hsel.
+  destruct (reduce_store_exact_any (sum_fmt f total) r o [zsum l]) as (w & Hs & Hcodes & Ho & Hu).
+  - cbn [sum_fmt nw]. lia.
+  - constructor; [exact Hin|constructor].
+  - rewrite Hs. cbn [bind]. exists w. auto.
+Qed.
+
+Theorem fxp_cumsum_exact_any f total l r o : 1 <= nw f -> 1 <= total -> Z.of_nat (length l) <= total -> Forall (in_range f) l ->
+  exists w, fxp_cumsum f total l r o = Ok (sum_fmt f total, w) /\ w_codes w = prefix_sums 0 l /\ w_ovf w = false /\ w_unf w = false.
+Proof.
+  intros Hw Ht Hlen Hr. pose proof (clog2_ge total Ht) as Hc. pose proof (clog2_nonneg total) as Hc0.
+  unfold fxp_cumsum. cbv zeta.
+  assert (Hsel: (if 64 <=? nw (sum_fmt f total) then scan_py Z.add 0 l else scan_i64 Z.add (sg f) 0 l) = prefix_sums 0 l).
+  { cbn [sum_fmt nw]. destruct (64 <=? clog2 total + nw f) eqn:E; [apply scan_py_prefix|].
+    assert (P63: 2^(clog2 total + nw f) <= 2^63) by (apply pow2_le; lia). rewrite pow2_split in P63 by lia.
+    assert (0 < 2^(nw f)) by (apply pow2_pos; lia). assert (0 < 2^(clog2 total)) by (apply pow2_pos; lia).
+    assert (E2: 2^(nw f) = 2 * 2^(nw f - 1)) by (apply pow2_double; lia). assert (0 < 2^(nw f - 1)) by (apply pow2_pos; lia).
+    destruct (sg f) eqn:Es.
+    - apply (scan_add_exact true l 0 (2^(nw f - 1))); [lia| |discriminate|cbn; nia].
+      eapply Forall_impl; [|exact Hr]. intros c Hcr. destruct (code_mag f c Hw Hcr) as (Sa & _). apply Sa. exact Es.
+    - (* unsigned: the wrap is modulo 2^64 and the partial sums stay below 2^63 *)
+      assert (Hgen: forall l' acc, Forall (fun c => 0 <= c < 2^(nw f)) l' -> 0 <= acc -> acc + Z.of_nat (length l') * 2^(nw f) <= 2^63 ->
+                     scan_i64 Z.add false acc l' = prefix_sums acc l').
+      { assert (E64: 2^63 < 2^64) by (apply pow2_lt; lia).
+        induction l' as [|c l' IH]; intros acc Hl' Ha Hb; [reflexivity|]. cbn [scan_i64 prefix_sums length] in *. rewrite Nat2Z.inj_succ in Hb.
+        pose proof (Forall_inv Hl') as Hc1. cbv beta in Hc1. assert (Hnn: 0 <= Z.of_nat (length l') * 2^(nw f)) by nia.
+        unfold acc_wrap. rewrite wrap_u64_small by lia. f_equal. apply IH; [exact (Forall_inv_tail Hl')|lia|lia]. }
+      apply Hgen; [|lia|nia].
+      eapply Forall_impl; [|exact Hr]. intros c Hcr. unfold in_range, cmin, cmax in Hcr. rewrite Es in Hcr. lia. }
+  rewrite Hsel.
+  destruct (reduce_store_exact_any (sum_fmt f total) r o (prefix_sums 0 l)) as (w & Hs & Hcodes & Ho & Hu).
+  - cbn [sum_fmt nw]. lia.
+  - apply (prefix_sums_in_range f total l 0 [] Hw Ht (Forall_nil _) eq_refl Hr). cbn [length]. lia.
+  - rewrite Hs. cbn [bind]. exists w. auto.
+Qed.
+
+Theorem fxp_prod_exact_any f l r o : 1 <= nw f -> (1 <= length l)%nat -> Forall (in_range f) l ->
+  exists w, fxp_prod f (Z.of_nat (length l)) l r o = Ok (prod_fmt f (Z.of_nat (length l)), w) /\
+    w_codes w = [zprod l] /\ w_ovf w = false /\ w_unf w = false.
+Proof.
+  intros Hw Hne Hr. pose proof (prod_in_range f l Hw Hne Hr) as Hin.
+  set (n := Z.of_nat (length l)) in *. assert (Hn: 1 <= n) by (unfold n; lia).
+  unfold fxp_prod. cbv zeta.
+  assert (Hsel: (if 64 <=? nw (prod_fmt f n) then prod_py l else prod_i64 (sg f) l) = zprod l).
+  { cbn [prod_fmt nw]. destruct (64 <=? n * nw f) eqn:E; [apply prod_py_zprod|].
+    unfold prod_i64. assert (P1: 1 <= 2^(nw f)) by (assert (0 < 2^(nw f)) by (apply pow2_pos; lia); lia).
+    destruct (sg f) eqn:Es.
+    - (* signed: |c| <= 2^(nw-1), the running product stays below 2^(n*(nw-1)) <= 2^62 *)
+      assert (P1': 1 <= 2^(nw f - 1)) by (assert (0 < 2^(nw f - 1)) by (apply pow2_pos; lia); lia).
+      rewrite (prod_acc_exact true l 1 (2^(nw f - 1)) (2^62) P1'); [lia| |discriminate| |apply pow2_lt; lia].
+      + eapply Forall_impl; [|exact Hr]. intros c Hc. destruct (code_mag f c Hw Hc) as (Sa & _). apply Sa. exact Es.
+      + fold n. rewrite pow2_pow by lia. change (Z.abs 1) with 1. rewrite Z.mul_1_l. apply pow2_le. nia.
+    - (* unsigned: the product of n codes below 2^nw is below 2^(n*nw) <= 2^63 *)
+      assert (Hgen: forall l' acc, Forall (fun c => 0 <= c < 2^(nw f)) l' -> 0 <= acc -> acc * (2^(nw f))^(Z.of_nat (length l')) <= 2^63 ->
+                     fold_left (fun a c => acc_wrap false (a * c)) l' acc = acc * zprod l').
+      { assert (E64: 2^63 < 2^64) by (apply pow2_lt; lia).
+        induction l' as [|c l' IH]; intros acc Hl' Ha Hb; [cbn; lia|]. cbn [fold_left zprod fold_right length] in *. fold (zprod l').
+        rewrite Nat2Z.inj_succ, Z.pow_succ_r in Hb by lia. pose proof (Forall_inv Hl') as Hc1. cbv beta in Hc1.
+        set (P := (2^(nw f))^(Z.of_nat (length l'))) in *.
+        assert (PB: 0 < P) by (apply Z.pow_pos_nonneg; lia).
+        assert (H1: acc * c <= acc * 2^(nw f)) by (apply Z.mul_le_mono_nonneg_l; lia).
+        assert (H2: (acc * c) * P <= (acc * 2^(nw f)) * P) by (apply Z.mul_le_mono_nonneg_r; lia).
+        assert (Hac: (acc * c) * P <= 2^63) by lia.
+        assert (H0: 0 <= acc * c) by (apply Z.mul_nonneg_nonneg; lia).
+        assert (H3: acc * c <= (acc * c) * P) by nia.
+        unfold acc_wrap. rewrite wrap_u64_small by lia. rewrite IH; [ring|exact (Forall_inv_tail Hl')|exact H0|exact Hac]. }
+      rewrite Hgen; [lia| |lia|].
+      + eapply Forall_impl; [|exact Hr]. intros c Hc. unfold in_range, cmin, cmax in Hc. rewrite Es in Hc. lia.
+      + fold n. rewrite pow2_pow by lia. rewrite Z.mul_1_l. apply pow2_le. nia. }
+  rewrite Hsel.
+  destruct (reduce_store_exact_any (prod_fmt f n) r o [zprod l]) as (w & Hs & Hcodes & Ho & Hu).
+  - unfold prod_fmt. cbn [nw]. nia.
+  - constructor; [exact Hin|constructor].
+  - rewrite Hs. cbn [bind]. exists w. auto.
+Qed.
+
+Theorem fxp_dot_exact_any fx fy xs ys r o : 1 <= nw fx -> 1 <= nw fy -> length xs = length ys -> (1 <= length xs)%nat ->
+  Forall (in_range fx) xs -> Forall (in_range fy) ys ->
+  let prods := map (fun p => fst p * snd p) (combine xs ys) in
+  exists w, fxp_dot fx fy xs ys r o = Ok (dot_fmt fx fy (Z.of_nat (length xs)), w) /\
+    w_codes w = [zsum prods] /\ w_ovf w = false /\ w_unf w = false.
+Proof.
+  intros Hwx Hwy Hlen Hne Hrx Hry prods.
+  pose proof (dot_in_range fx fy xs ys Hwx Hwy Hlen Hne Hrx Hry) as Hin. fold prods in Hin.
+  set (n := Z.of_nat (length xs)) in *. assert (Hn: 1 <= n) by (unfold n; lia).
+  pose proof (clog2_ge n Hn) as Hc. pose proof (clog2_nonneg n) as Hc0.
+  assert (Hlp: length prods = length xs) by (unfold prods; rewrite map_length, combine_length; lia).
+  unfold fxp_dot. fold n. fold prods. cbv zeta.
+  match goal with |- context [if ?b then sum_py prods else sum_i64 true prods] =>
+    assert (Hsel: (if b then sum_py prods else sum_i64 true prods) = zsum prods) end.
+  { match goal with |- (if ?b then _ else _) = _ => destruct b eqn:Eb end; [apply sum_py_zsum|].
+    apply orb_false_iff in Eb. destruct Eb as (E64 & _). cbn [dot_fmt nw] in E64.
+    set (B := 2^(nw fx + nw fy) - 1).
+    assert (PB: 0 < 2^(nw fx + nw fy)) by (apply pow2_pos; lia).
+    apply (sum_i64_exact prods B); [unfold B; lia| |].
+    - unfold prods. rewrite Forall_map. apply Forall_forall. intros [a b] Hp. cbn [fst snd]. rewrite Forall_forall in Hrx, Hry.
+      pose proof (Hrx a (in_combine_l _ _ _ _ Hp)) as Ha. pose proof (Hry b (in_combine_r _ _ _ _ Hp)) as Hb.
+      destruct (code_mag fx a Hwx Ha) as (Sa & Ua). destruct (code_mag fy b Hwy Hb) as (Sb & Ub).
+      assert (Ex: 2^(nw fx) = 2 * 2^(nw fx - 1)) by (apply pow2_double; lia). assert (0 < 2^(nw fx - 1)) by (apply pow2_pos; lia).
+      assert (Ey: 2^(nw fy) = 2 * 2^(nw fy - 1)) by (apply pow2_double; lia). assert (0 < 2^(nw fy - 1)) by (apply pow2_pos; lia).
+      assert (Hxa: Z.abs a <= 2^(nw fx) - 1) by (destruct (sg fx); [specialize (Sa eq_refl)|specialize (Ua eq_refl)]; lia).
+      assert (Hyb: Z.abs b <= 2^(nw fy) - 1) by (destruct (sg fy); [specialize (Sb eq_refl)|specialize (Ub eq_refl)]; lia).
+      unfold B. rewrite pow2_split by lia. rewrite Z.abs_mul. nia.
+    - rewrite Hlp. fold n. assert (P63: 2^(clog2 n + (nw fx + nw fy)) <= 2^63) by (apply pow2_le; lia). rewrite pow2_split in P63 by lia.
+      unfold B. nia. }
+  rewrite Hsel.
+  destruct (reduce_store_exact_any (dot_fmt fx fy n) r o [zsum prods]) as (w & Hs & Hcodes & Ho & Hu).
+  - unfold dot_fmt. cbn [nw]. lia.
   - constructor; [exact Hin|constructor].
   - rewrite Hs. cbn [bind]. exists w. auto.
 Qed.
